@@ -713,3 +713,25 @@ func (f *Flat) ReachingDefs(id int, o types.Object) []reachingDef {
 	}
 	return res
 }
+
+// NodeContaining returns the id of the node whose syntax tree contains x (by identity, function literals
+// included; deferred registrations excluded), or -1. Unlike a position comparison it is safe on graphs with
+// spliced-in helpers, whose synthetic binding statements span unrelated source ranges.
+func (f *Flat) NodeContaining(x ast.Node) int {
+	res := -1
+	for _, n := range f.Nodes {
+		if n.Ast == nil || res >= 0 {
+			continue
+		}
+		if _, isDefer := n.Ast.(*ast.DeferStmt); isDefer {
+			continue
+		}
+		ast.Inspect(n.Ast, func(y ast.Node) bool {
+			if y == x {
+				res = n.ID
+			}
+			return res < 0
+		})
+	}
+	return res
+}
